@@ -30,10 +30,10 @@ import (
 // group.MembershipValidator.IsValidMembership.
 type c35Signing struct{}
 
-func (c35Signing) Address() chain.Address                   { return "" }
-func (c35Signing) PublicKey() []byte                        { return nil }
-func (c35Signing) Sign([]byte) ([]byte, error)              { return nil, nil }
-func (c35Signing) Verify([]byte, []byte) (bool, error)      { return false, nil }
+func (c35Signing) Address() chain.Address              { return "" }
+func (c35Signing) PublicKey() []byte                   { return nil }
+func (c35Signing) Sign([]byte) ([]byte, error)         { return nil, nil }
+func (c35Signing) Verify([]byte, []byte) (bool, error) { return false, nil }
 func (c35Signing) VerifyWithPublicKey([]byte, []byte, []byte) (bool, error) {
 	return false, nil
 }
@@ -439,15 +439,24 @@ func TestVerifC35(t *testing.T) {
 
 	small := []c35M{{1, "ok"}, {2, "ok"}, {3, "ok"}, {4, "ok"}, {3, "sigB"}}
 	// twoOk: two included members' confirmations plus any one message at any position
-	var twoOk [][]c35M
-	for _, pair := range [][2]int{{1, 2}, {1, 3}, {2, 3}} {
-		for _, m := range full {
-			for pos := 0; pos < 3; pos++ {
-				h := []c35M{{pair[0], "ok"}, {pair[1], "ok"}}
-				h = append(h[:pos], append([]c35M{m}, h[pos:]...)...)
-				twoOk = append(twoOk, h)
+	twoOkFor := func(excluded int) [][]c35M {
+		var in []int
+		for i := 1; i <= c35GroupSize; i++ {
+			if i != excluded {
+				in = append(in, i)
 			}
 		}
+		var out [][]c35M
+		for _, pair := range [][2]int{{in[0], in[1]}, {in[0], in[2]}, {in[1], in[2]}} {
+			for _, m := range full {
+				for pos := 0; pos < 3; pos++ {
+					h := []c35M{{pair[0], "ok"}, {pair[1], "ok"}}
+					h = append(h[:pos], append([]c35M{m}, h[pos:]...)...)
+					out = append(out, h)
+				}
+			}
+		}
+		return out
 	}
 
 	type leg struct {
@@ -463,7 +472,8 @@ func TestVerifC35(t *testing.T) {
 		legs = []leg{
 			{"full<=3", []int{4}, c35Histories(full, 0, 3), 0},
 			{"full<=2", []int{2}, c35Histories(full, 0, 2), 1},
-			{"twoOk+any", []int{4, 3}, twoOk, 2},
+			{"twoOk+any/4", []int{4}, twoOkFor(4), 2},
+			{"twoOk+any/2", []int{2}, twoOkFor(2), 2},
 			{"reduced=3", []int{4}, c35Histories(reduced, 3, 3), 2},
 			{"small<=3", []int{4}, c35Histories(small, 1, 3), 3},
 			{"reduced=4", []int{4}, c35Histories(reduced, 4, 4), 1},
@@ -472,7 +482,8 @@ func TestVerifC35(t *testing.T) {
 	} else {
 		legs = []leg{
 			{"full<=2", []int{4}, c35Histories(full, 0, 2), 0},
-			{"twoOk+any", []int{4}, twoOk, 0},
+			{"twoOk+any/4", []int{4}, twoOkFor(4), 0},
+			{"twoOk+any/2", []int{2}, twoOkFor(2), 0},
 			{"oks=3", []int{4}, c35Histories(small[:4], 3, 3), 2},
 			{"small=3", []int{4}, c35Histories(small, 3, 3), 1},
 			{"small=4", []int{4}, c35Histories(small, 4, 4), 0},
